@@ -29,11 +29,11 @@ TECHNIQUE = "runtime monitoring: defining-identity oracles on recorded functiona
 def cases(tier, seed):
     rng = np.random.default_rng(17000 + seed)
     out = []
-    n = 80 if tier == "quick" else 800
+    n = 80 if tier == "quick" else 2400
     for k in range(n):
         out.append(dict(kind="perf", nsurf=int(rng.choice([1, 2, 3])), sym=[True, False, "mixed"][k % 3], user_sref=bool((k // 3) % 2), seed=int(rng.integers(1 << 30)),
                         aero_only=bool(k % 4 == 3), lw=bool(k % 5 == 0)))
-    n = 8 if tier == "quick" else 40
+    n = 8 if tier == "quick" else 120
     for k in range(n):
         nsurf = int(rng.choice([1, 2]))
         symc = bool(k % 2)
@@ -46,9 +46,9 @@ def cases(tier, seed):
         out.append(dict(kind="insitu", group="as" if k % 2 else "aero", surfaces=surfs, user_sref=bool(k % 4 == 0),
                         flow=dict(alpha=float(np.round(rng.uniform(0, 8), 2)), v=float(rng.uniform(60, 240)), rho=float(rng.uniform(0.3, 1.2)),
                                   Mach_number=0.5, re=1e6, cg=[float(x) for x in np.round(rng.uniform(-1, 2, 3), 3)]), _cost=6))
-    nlad = 4 if tier == "quick" else 16
+    nlad = 4 if tier == "quick" else 48
     for k in range(nlad):
-        out.append(dict(kind="atmos", n=1000 if tier == "quick" else 4000, lo_frac=k / nlad, hi_frac=(k + 1) / nlad,
+        out.append(dict(kind="atmos", n=1000 if tier == "quick" else 12000, lo_frac=k / nlad, hi_frac=(k + 1) / nlad,
                         Mach=float(np.round(rng.uniform(0.05, 0.95), 3)), _cost=4))
     return out
 
